@@ -513,7 +513,14 @@ pub fn generate(s: &mut Session, thorough: bool) -> bool {
             cfg.noise_adc = 3.0;
         }
         let mut r = sim::event_rng(s.seed ^ 0xC13B, i);
-        let ev = sim::simulate_event(&mut r, &cfg);
+        // the simulator cross-checks the geometry hooks when it builds its detector description
+        let ev = match guarded(|| sim::simulate_event(&mut r, &cfg)) {
+            Ok(ev) => ev,
+            Err(m) => {
+                s.push_oracle("sim-tracks", "nfactors -".into(), "ok".into(), Some(format!("the forward model rejects the library's geometry: {m}")));
+                continue;
+            }
+        };
         match guarded(|| MainEvent::try_from_banks(sim::SIM_RUN, ev.bank_refs())) {
             Ok(Ok(me)) => {
                 sim_ok += 1;
